@@ -680,7 +680,12 @@ fn reply_class(r: Reply, data: fn(u64) -> String) -> String {
     match r {
         Reply::Data(c, _) => data(c),
         Reply::Status(s) => im_class(s),
-        Reply::Err(_) => "fail".into(),
+        Reply::Err(e) => {
+            if std::env::var("C07_DEBUG").is_ok() {
+                eprintln!("invoke error: {}", e);
+            }
+            "fail".into()
+        }
     }
 }
 
@@ -773,8 +778,15 @@ async fn case_handshake(ctl: &Matter<'_>, fab: NonZeroU8, peer_node: u64) -> Res
 
 /// wait until no handshake is in flight any more (the responder finishes after the initiator)
 async fn settle(dev: &Matter<'_>, ctl: &Matter<'_>) {
-    for _ in 0..2000 {
-        let busy = |m: &Matter<'_>| m.with_state(|state| state.verif_sessions().iter().any(|s| s.verif_snapshot().reserved));
+    for _ in 0..4000 {
+        let busy = |m: &Matter<'_>| {
+            m.with_state(|state| {
+                state.verif_sessions().iter().any(|s| {
+                    let snap = s.verif_snapshot();
+                    snap.reserved || !snap.exchanges.is_empty()
+                })
+            })
+        };
         if !busy(dev) && !busy(ctl) {
             return;
         }
@@ -1145,7 +1157,13 @@ fn run_incarnation(base: &Base, g: &mut Ghost, blobs: &BTreeMap<u16, Vec<u8>>, o
                         } else {
                             let before = session_ids(&ctl);
                             let res = case_handshake(&ctl, NonZeroU8::new(*r as u8 + 1).unwrap(), DEV_NODE + *r as u64).await;
+                            if std::env::var("C07_DEBUG").is_ok() {
+                                eprintln!("establish {}: {:?} at {} ms", r, res.as_ref().map_err(|e| e.code()), net.elapsed_ms());
+                            }
                             settle(&dev, &ctl).await;
+                            if std::env::var("C07_DEBUG").is_ok() {
+                                eprintln!("settled at {} ms", net.elapsed_ms());
+                            }
                             remove_plaintext(&dev);
                             remove_plaintext(&ctl);
                             match res {
@@ -1199,6 +1217,9 @@ fn run_incarnation(base: &Base, g: &mut Ghost, blobs: &BTreeMap<u16, Vec<u8>>, o
                                 remove_plaintext(&ctl);
                                 ctl.with_state(|state| state.resumption.remove_by_peer(cfab, bogus));
                                 let dev_new = session_ids(&dev).iter().any(|i| !before_dev.contains(i));
+                                if std::env::var("C07_DEBUG").is_ok() {
+                                    eprintln!("resume {}: {:?} dev_new={}", k, res.as_ref().map(|r| r.as_ref().map_err(|e| e.code())), dev_new);
+                                }
                                 match res {
                                     Some(Ok(())) if dev_new => {
                                         let after = session_ids(&ctl);
